@@ -21,6 +21,7 @@ MANIFEST = {
     'note': 'Trusted: fork start method (asserted), the classic sift used to recompute member decompositions (C01-C04), numpy/scipy. If a member lacks a component, either the zero-padded mean or absence of the column is accepted.',
     'technique': 'offline history checker over per-process event logs (unique noise digests per member, recomputed member mean), delay injection for schedule diversity',
 }
+LOGGER_ON_ODD_SHARDS = 'quarter'   # (sifting logs heavily: a quarter of the shards run with the logger set up)
 BUDGET_S = {'quick': 80, 'thorough': 540}
 NCASES = {'quick': 400, 'thorough': 6000}
 RULE = ('seeded random signals (100..250 samples) x variant {ensemble, complete ensemble} x nensembles 1..8 x nprocesses '
@@ -69,7 +70,7 @@ def member_mean(S, L, kw, cap, flip):
     return decs
 
 
-def check_noise_distinct(ctx, L, flip, nens, noise_level, case, label):
+def check_noise_distinct(ctx, L, flip, nens, noise_level, case, label, later_layer=False):
     """noise_i = input - layer input: distinct across members; flip members are +-pairs."""
     X = L['X']
     scale = max(np.abs(X).max(), 1e-300)
@@ -92,10 +93,17 @@ def check_noise_distinct(ctx, L, flip, nens, noise_level, case, label):
         return True
     for i in range(len(noises)):
         if np.abs(noises[i]).max() == 0:
+            if later_layer:
+                # complete ensemble: a member's noise process can be exhausted (its remaining noise residual is exactly zero
+                # once the sift of the noise has returned all of it) - nothing to be distinct about
+                ctx.count('exhausted_noise_members')
+                continue
             ctx.violation('zero-noise-member', '%s: member %d received no noise although ensemble_noise=%g' % (label, i, noise_level), case)
             return False
         for j in range(i + 1, len(noises)):
             a, b = noises[i], noises[j]
+            if later_layer and (np.abs(a).max() == 0 or np.abs(b).max() == 0):
+                continue
             same = np.array_equal(a, b)
             # scalar multiples (shared realisation, different scale) are not independent either
             c = float(np.dot(a, b) / np.dot(b, b))
@@ -188,7 +196,7 @@ def check_case(ctx, tr, case):
                           % (out.shape[1], len(layers)), case)
             return
         for li, L in enumerate(layers):
-            if not check_noise_distinct(ctx, L, flip, nens, lvl, case, 'complete_ensemble_sift layer %d' % li):
+            if not check_noise_distinct(ctx, L, flip, nens, lvl, case, 'complete_ensemble_sift layer %d' % li, later_layer=(li > 0)):
                 return
             decs = member_mean(S, L, kw, 1, flip)
             ref = np.array([d[:, 0] for d in decs]).mean(axis=0)
@@ -209,7 +217,7 @@ def check_case(ctx, tr, case):
 
 def gen_case(rng):
     fam = gens.pick(rng, ['noise', 'walk', 'tones', 'amfm'])
-    n = int(rng.integers(100, 251))
+    n = int(rng.integers(100, 251)) if rng.random() < .65 else int(rng.integers(20, 70))   # short records: members differ in IMF count
     x = gens.signal(rng, fam, n)
     io = gens.imf_opts(rng)
     if io['stop_method'] != 'fixed':
